@@ -137,9 +137,34 @@ def centred_probe(cfg, rng, symmetric):
         if nv < 1e-6:
             raise ValueError("degenerate probe modes")
         out.append(v / nv)
-    w = np.array([0.45 ** m for m in range(K)])
-    w = w / w.sum() * cfg["counts"]
+    w = mode_powers(cfg, rng)
     return np.array([np.sqrt(w[m]) * out[m] for m in range(K)])
+
+
+def mode_powers(cfg, rng):
+    """distinct powers of the K modes in the ORDER they are installed (the quantifier fixes no order; the library's
+    hard constraint re-sorts them strongest-first): cfg['mode_order'] in descending / ascending / mixed / near-equal"""
+    K = cfg["modes"]
+    order = cfg.get("mode_order", "descending")
+    if order == "near-equal":
+        w = np.array([1.0 + 0.03 * j for j in range(K)])       # 3 % apart: distinct in float32, almost degenerate
+        w = np.array(rng.shuffle(list(w)))
+    else:
+        w = np.sort(np.array([0.45 ** m for m in range(K)]))[::-1].copy()   # descending
+        if order == "ascending":
+            w = w[::-1].copy()
+        elif order == "mixed" and K >= 3:
+            perms = [pm for pm in ([1, 0, 2], [1, 2, 0], [0, 2, 1], [2, 0, 1]) ]
+            w = w[np.array(rng.choice(perms))]
+        elif order == "mixed":
+            w = w[::-1].copy()                                   # K = 2: the only non-descending order
+    return w / w.sum() * cfg["counts"]
+
+
+def sort_modes_by_power(probes):
+    """the order the library's probe hard constraint reports: strongest mode first (powers are distinct)"""
+    pw = np.sum(np.abs(probes) ** 2, axis=(-2, -1))
+    return probes[np.argsort(-pw, kind="stable")]
 
 
 def object_phase(cfg, rng, H, W, positions, symmetric):
